@@ -104,11 +104,21 @@ def gen(rng, cid, plugin):
             cgs["wl/" + nm]["files"]["memory.low"] = "0\n"
             cgs["wl/" + nm]["files"]["memory.min"] = "0\n"
     nticks = rng.choice([2, 3])
+    # sampling gap: one sibling's counter file is unreadable for exactly one tick, so on the next tick it has no
+    # previous-tick baseline while its siblings do (rates must not be computed against an older baseline)
+    gap = None
+    if not boundary and plugin in ("kill_by_pg_scan", "kill_by_io_cost", "kill_by_memory_size_or_growth") and rng.random() < 0.3:
+        nticks = rng.choice([4, 5])
+        gap = (rng.randint(1, nticks - 2), "wl/" + rng.choice(names),
+               {"kill_by_pg_scan": "memory.stat", "kill_by_io_cost": "io.stat"}.get(plugin, "memory.current"))
     ticks = [{"step_ns": 10**9, "ops": []}]
     for t in range(1, nticks):
         ops = []
         for nm in names:
             r = "wl/" + nm
+            if gap and gap[0] == t and gap[1] == r:
+                ops.append({"op": "write", "cg": r, "file": gap[2], "text": None})
+                continue
             old = CG.parse_kv(cgs[r]["files"]["memory.stat"])
             old["pgscan"] = old["pgscan"] + rng.choice([0, 0, 1, rng.randint(1, 10**6)])
             ops.append({"op": "write", "cg": r, "file": "memory.stat", "text": W.memstat(old)})
@@ -122,7 +132,7 @@ def gen(rng, cid, plugin):
         ticks.append({"step_ns": 10**9, "ops": ops})
     # nobody dies: every kill fails, so the same sibling set is ranked on every tick and fallback order is visible
     scn = KG.base_scn(cid, cgs, KG.kill_config(plugin, args), ticks=ticks, proc=proc, kill={"default": "ESRCH"})
-    return core.Case(cid, [scn], {"plugin": plugin, "args": args, "mode": mode})
+    return core.Case(cid, [scn], {"plugin": plugin, "args": args, "mode": mode, "gap": gap})
 
 
 def cases(seed, tier):
@@ -188,6 +198,8 @@ def judge(case, results):
             strict += 1
     v.count("strict_argmax_invocations", strict)
     v.count("plugin:" + plugin)
+    if case.meta.get("gap"):
+        v.count("sampling_gap_cases")
     v.nontrivial = strict > 0
     v.sig = core.scn_hash(scn)
     return v
